@@ -19,7 +19,7 @@ SC = "examples/multi-thread/scope.rs"
 
 M = [
  # ---- C01 / C07 / C11
- ("c01_flush_scan_noop", [], MH,
+ ("c01_flush_scan_noop_NEG", ["-C01", "-C07"], MH,
   "        if suit_counts[suit_index] >= 5 {\n            return Some(*suit);\n        }",
   "        if suit_counts[suit_index] >= 5 {\n            return Some(*suit);\n        }\n        if suit_counts[suit_index] == 4 && cards.iter().filter(|c| c.suit() == suit).count() == 4 {\n            continue;\n        }"),  # harmless variant (must stay silent): semantic no-op
  ("c01_flush_mask_first5_only", ["C01"], MH,
@@ -102,14 +102,14 @@ M = [
  ("c13_mask_bit", ["C13"], CA, "const KING_MASK: u64 = 0b0000000000000000000000000000000000000000000011110000;", "const KING_MASK: u64 = 0b0000000000000000000000000000000000000000000111100000;"),
  ("c13_next_arms", ["C13", "C05"], RK, "            Rank::Nine => Some(Rank::Eight),\n            Rank::Eight => Some(Rank::Seven),", "            Rank::Nine => Some(Rank::Seven),\n            Rank::Eight => Some(Rank::Seven),"),
  ("c13_suitrange_all_end3", ["C13", "C02"], SR, "            end: SUITS.len(),", "            end: SUITS.len() - 1,"),
- ("c14_display_second_first", ["C17"], CP, 'write!(f, "{}{}", self.0, self.1)', 'write!(f, "{}{}", self.1, self.0)'),  # C14 still holds (text parses back); canonical text order is C17's
+ ("c14_display_second_first_NEG", ["-C14", "-C17", "-C05"], CP, 'write!(f, "{}{}", self.0, self.1)', 'write!(f, "{}{}", self.1, self.0)'),  # negative control: the text still parses back (C14), stays a function of the contents (C17), either card order is valid notation (C05); only the repository suite pins the order
  ("c14_no_normalisation_same_rank", ["C14"], CP, "        if left > right {", "        if left.rank() > right.rank() {"),
  # ---- C15
  ("c15_static_deck_cache", ["C15"], FE,
   "        Self {\n            turn_to: evaluator.turn_to,",
   "        static CACHE: std::sync::Mutex<Option<Vec<Card>>> = std::sync::Mutex::new(None);\n        let current_deck: Vec<Card> = {\n            let mut g = CACHE.lock().unwrap();\n            if g.is_none() {\n                *g = Some(current_deck);\n            }\n            g.as_ref().unwrap().clone()\n        };\n\n        Self {\n            turn_to: evaluator.turn_to,"),
  # ---- C16
- ("c16_ceil_to_round_NEG_C16", [], SC, "(x % 1.0)).ceil() as u8", "(x % 1.0)).round() as u8"),
+ ("c16_ceil_to_round_NEG", ["-C16"], SC, "(x % 1.0)).ceil() as u8", "(x % 1.0)).round() as u8"),
  ("c16_normalisation_removed", ["C16"], SC, "        if river_to > 48 && turn_to < 48 {", "        if river_to > 49 && turn_to < 48 {"),
  ("c16_prev_r_not_updated", ["C16"], SC, "        prev_r = river_to;", "        prev_r = river_to.max(prev_r);"),
 ]
@@ -137,7 +137,7 @@ def main():
         table.append((name, props))
     with open("/verif/mutants/INDEX.tsv", "w") as f:
         for n, p in table:
-            f.write("%s\t%s\n" % (n, ",".join(p) if p else "-"))
+            f.write("%s\t%s\n" % (n, ",".join(p)))
     print("wrote", len(table), "mutants")
 
 main()
